@@ -79,7 +79,7 @@ func genScript(r *rand.Rand, handler string, typ int, isHTTP bool, hasCID bool) 
 	case k < 78:
 		// no reply at all
 	case k < 90:
-		sc = append(sc, "p:"+pick(r, "reserr", "err", "str", "int", "nil", "wraperr", "reserrnomsg"))
+		sc = append(sc, "p:"+pick(r, "reserr", "err", "str", "int", "nil", "wraperr", "reserrnomsg", "reserrbad"))
 	default:
 		sc = append(sc, "r:"+pick(r, replies...), pick(r, "r:ok", "r:notfound", "p:str", "p:reserr", "status", "t:50", "ev:late"))
 	}
